@@ -507,3 +507,63 @@ def check_values_keep_dtype(prog, rep, rule, pub, entry=None):
             'truncates onto a legitimate cell value (-1 is 255 on uint8, 0.5 is 0, NaN is INT_MIN)'
             % '; '.join('`%s` squeezed into `%s`.dtype (%s)' % b for b in bad[:2]), trivial=not values)
     return 1
+
+
+def check_value_truthiness(prog, rep, rule, pub, entry=None):
+    """A parameter that carries a caller's VALUE - a number (nodata, an angle, a distance, a seed, a sample size), a list of
+    values or ids - is never used as a truth value, neither in the public function nor in any function of its module that
+    the value is handed on to (followed by name binding through the module's calls, partials and delayed wrappers).
+    `x = x or default`, `if not x:`, `if x:` treat the legitimate values 0 / 0.0 / [] like "not given": a light from due
+    north (azimuth 0), nodata 0, seed 0, an empty selection.  The absent marker is `None` and is tested with `is None`.
+    Parameters whose default is a bool or a string (flags, names, option strings) are not values; GPU functions are not
+    looked at.  One obligation per public function."""
+    from .zonalrules import nodata_params
+    entry = entry or pub.name
+    defaults = pub.defaults()
+    values = []
+    for p in list(pub.params) + list(getattr(pub, 'kwonly', [])):
+        d = defaults.get(p)
+        if isinstance(d, ast.Constant) and isinstance(d.value, (bool, str)):
+            continue
+        if d is None and p in (pub.params[0],):
+            continue                      # the raster itself
+        if p in ('name', 'self'):
+            continue
+        values.append(p)
+    bad = []
+    m = pub.module
+    funcs = [g for g in m.allfuncs if not g.is_lambda and not any(t in g.name for t in ('cupy', 'gpu', 'cuda'))]
+
+    def truth_uses(t_, names):
+        if isinstance(t_, ast.Name) and t_.id in names:
+            return [t_]
+        if isinstance(t_, ast.UnaryOp) and isinstance(t_.op, ast.Not):
+            return truth_uses(t_.operand, names)
+        if isinstance(t_, ast.BoolOp):
+            return [u for v_ in t_.values for u in truth_uses(v_, names)]
+        return []
+    for p in values:
+        for g in funcs:
+            names = (nodata_params(prog, g, p) & set(g.params + g.kwonly)) | ({p} if g is pub else set())
+            if g is not pub and not names:
+                continue
+            # annotated / defaulted as a flag in the helper itself: not a value there
+            gd = g.defaults()
+            names = {n_ for n_ in names if not (isinstance(gd.get(n_), ast.Constant) and isinstance(gd.get(n_).value, (bool, str)))}
+            if not names:
+                continue
+            for n in g.own_nodes():
+                tests = []
+                if isinstance(n, (ast.If, ast.IfExp, ast.While)):
+                    tests.append(n.test)
+                elif isinstance(n, ast.BoolOp) and not any(n is getattr(x, 'test', None) for x in g.own_nodes()):
+                    tests.extend(n.values[:-1] if isinstance(n.op, ast.Or) else n.values)
+                for t_ in tests:
+                    for u in truth_uses(t_, names):
+                        key_ = (g.qualname, u.lineno, u.id)
+                        if key_ not in [b_[0] for b_ in bad]:
+                            bad.append((key_, '`%s` in %s (line %d): %s' % (u.id, g.name, u.lineno, norm(t_)[:60])))
+    rep.add(rule, pub, entry, "caller's values %s are never used as truth values" % values, pub.node.lineno, not bad,
+            'a value parameter is tested for truthiness - 0, 0.0 and an empty list are legitimate values and would be treated like '
+            '"not given" (the absent marker is None, tested with `is None`): ' + '; '.join(b_[1] for b_ in bad[:3]), trivial=not values)
+    return 1
